@@ -509,7 +509,8 @@ def model_val(v):
 
 
 def modelled(case) -> bool:
-    return not any(c.get("base") for c in case["classes"].values())
+    # the Lean model follows one level of inheritance
+    return not any(c.get("base") and case["classes"][c["base"]].get("base") for c in case["classes"].values())
 
 
 def model_line(case, cfg=None):
@@ -538,8 +539,10 @@ def model_line(case, cfg=None):
                 else:
                     fa = {"plain": model_ann(t, cells, (i, f))}
                 fields.append([KEY_IDS[f], fa])
+            base = case["classes"][name].get("base") if not func else None
             ops.append({"def": name_id(name), "fields": fields, "local": local,
-                        "bound": case.get("scope") != "function", "func": func})
+                        "bound": case.get("scope") != "function", "func": func,
+                        "base": name_id(base) if base else None})
         elif "use" in op:
             ops.append({"use": name_id(op["use"]), "kvs": model_val(op["input"])["dict"]})
         else:
@@ -740,7 +743,7 @@ def gen_case(rng, tier="quick"):
         classes[n] = {"fields": fields, "kind": "dataclass" if rng.random() < 0.3 else "schema",
                       "local": scope == "module" and rng.random() < 0.15}
     # inheritance (not in the Lean model: spec sweep only)
-    if ncls >= 3 and rng.random() < 0.1:
+    if ncls >= 3 and rng.random() < 0.15:
         sub, base = order[-1], order[0]
         if not classes[base].get("local") and not classes[sub].get("local"):
             classes[sub]["base"] = base
@@ -860,10 +863,10 @@ class C17(Check):
 
     def model_line(self, case):
         if not modelled(case):
-            return {"ops": [], "fuel": 1, "unmodelled": "inheritance"}
+            return {"ops": [], "fuel": 1, "unmodelled": "inheritance deeper than one level"}
         import os
         if os.environ.get("C17_LEGACY"):      # development aid: the pre-fix switches, against an unpatched tree
-            return model_line(case, {"uniqueKeys": False, "resolveUnion": False})
+            return model_line(case, {"uniqueKeys": False, "resolveUnion": False, "inheritRefs": False})
         return model_line(case)
 
     def compare(self, case, io, mo):
@@ -987,7 +990,7 @@ class C17(Check):
             "every combination of <= %d annotations out of 9 spellings (bare/quoted leaf, List, Dict, Optional, Tuple, "
             "Union, List[Optional], Optional[List], whole string) of a reference A->B x {module, future, function scope, "
             "factory-local, dataclass} x both definition orders" % (3 if tier == "thorough" else 2))
-        ev["coverage"]["unmodelled"] = "programs with inheritance go through the spec sweep only (Lean model has no base classes)"
+        ev["coverage"]["unmodelled"] = "inheritance deeper than one level (not generated) would go through the spec sweep only"
 
     def reproduce(self, case):
         return (f"cat > /tmp/c17_repro.py <<'EOF'\nimport sys; sys.path.insert(0, {str(REPO)!r}); sys.path.insert(0, '.')\n"
